@@ -84,6 +84,8 @@ func queryFor(st Step) string {
 	return ""
 }
 
+type detachedKey struct{}
+
 const refusedMark = "refusedByPolicy_"
 
 // refuser is an extension that refuses marked operations while their context is created.
@@ -168,6 +170,13 @@ func check(c Case) *vfrun.Failure {
 		ws.InitFunc = func(ctx context.Context, ip transport.InitPayload) (context.Context, *transport.InitPayload, error) {
 			sess.exec.Log("INIT-OK", "", nil)
 			return ctx, nil, nil
+		}
+	case "detached":
+		// the init function hands back a context of its own making (not derived from the one it was
+		// given): the connection and its operations live in that context from then on
+		ws.InitFunc = func(ctx context.Context, ip transport.InitPayload) (context.Context, *transport.InitPayload, error) {
+			sess.exec.Log("INIT-OK", "", nil)
+			return context.WithValue(context.Background(), detachedKey{}, true), nil, nil
 		}
 	case "reject":
 		ws.InitFunc = func(ctx context.Context, ip transport.InitPayload) (context.Context, *transport.InitPayload, error) {
@@ -444,7 +453,7 @@ waitLoop:
 			return vfrun.Failf("ws.refused-operation-executed", "%s: resolver %s ran although an extension refused the operation", desc, ev.Key)
 		}
 		if ev.Kind == "R" {
-			if !initSent || !initAcceptable || (c.InitFunc == "accept" && (initSeq < 0 || ev.Seq < initSeq)) {
+			if !initSent || !initAcceptable || ((c.InitFunc == "accept" || c.InitFunc == "detached") && (initSeq < 0 || ev.Seq < initSeq)) {
 				return vfrun.Failf("ws.executed-before-init-accepted", "%s: resolver %s ran although the handshake was not accepted (initSeq %d, event seq %d)", desc, ev.Key, initSeq, ev.Seq)
 			}
 		}
@@ -590,7 +599,7 @@ func describe(c Case) string {
 func gen(t *rapid.T) Case {
 	c := Case{
 		Proto:       rapid.SampledFrom([]string{"graphql-ws", "graphql-transport-ws"}).Draw(t, "proto"),
-		InitFunc:    rapid.SampledFrom([]string{"none", "accept", "accept", "reject"}).Draw(t, "initfunc"),
+		InitFunc:    rapid.SampledFrom([]string{"none", "accept", "accept", "reject", "detached"}).Draw(t, "initfunc"),
 		KeepAliveUS: rapid.SampledFrom([]int{0, 1000, 200}).Draw(t, "ka"),
 		PingPongUS:  rapid.SampledFrom([]int{0, 1000, 300}).Draw(t, "pp"),
 	}
@@ -655,6 +664,11 @@ func gen(t *rapid.T) Case {
 				st.GapUS = rapid.SampledFrom([]int{0, 0, 10, 30, 60, 100, 200}).Draw(t, "racegap")
 			} else {
 				st.Kind = "servercancel"
+			}
+			if c.InitFunc == "detached" {
+				// cancelling the server's context does not reach a connection that lives in a
+				// context of the init function's own making: the client ends these sessions
+				st = Step{Kind: "abrupt"}
 			}
 		case 17:
 			st.Kind, st.Payload = "init", `{}`
